@@ -199,3 +199,72 @@ func (t *fnTrans) mPoolPut(in ssa.Instruction, cc *ssa.CallCommon, res ssa.Value
 	}
 	return true
 }
+
+// ---- method invariants ------------------------------------------------------------------
+// `method_invariant E` on a struct: an object invariant in the classical sense, for fields that no lock
+// guards (configuration state of listeners and dialers): every method of the type may assume it on entry
+// for its receiver and must re-establish it at every return; functions that allocate the object must
+// establish it (construct:).  It says nothing under concurrent calls -- neither does the code.
+
+func (t *fnTrans) methodInvStruct() (*StructAnn, sval, bool) {
+	if t.fn.Signature.Recv() == nil || len(t.fn.Params) == 0 {
+		return nil, sval{}, false
+	}
+	p := t.fn.Params[0]
+	if _, isPtr := p.Type().Underlying().(*types.Pointer); !isPtr {
+		return nil, sval{}, false
+	}
+	sa := t.structAnnOf(p.Type())
+	if sa == nil || len(sa.minvs) == 0 {
+		return nil, sval{}, false
+	}
+	return sa, sval{term: t.val(p), typ: p.Type(), sort: "Int"}, true
+}
+
+func (t *fnTrans) methodInvEntry() {
+	sa, recv, ok := t.methodInvStruct()
+	if !ok {
+		return
+	}
+	for _, inv := range sa.minvs {
+		e := &evalCtx{t: t, fn: t.fn, st: t.cur, old: t.cur, binds: map[string]sval{}, this: &recv}
+		if term, ok := t.evalBool(e, inv); ok {
+			t.assume(term)
+		}
+	}
+}
+
+func (t *fnTrans) methodInvReturn(in *ssa.Return) {
+	sa, recv, ok := t.methodInvStruct()
+	if ok {
+		for k, inv := range sa.minvs {
+			e := &evalCtx{t: t, fn: t.fn, st: t.cur, old: t.entry, binds: map[string]sval{}, this: &recv}
+			if term, ok := t.evalBool(e, inv); ok {
+				t.oblige("monitor", fmt.Sprintf("exit:%s.minv%d@%s", sa.name, k+1, t.sites[in]), in.Pos(), term, "object invariant must hold again when the method returns: "+inv.text)
+			}
+		}
+	}
+	// objects of such a type allocated here
+	for _, b := range t.fn.Blocks {
+		for _, bi := range b.Instrs {
+			a, isA := bi.(*ssa.Alloc)
+			if !isA || !a.Heap {
+				continue
+			}
+			if _, done := t.vals[a]; !done || !(b == in.Block() || b.Dominates(in.Block())) {
+				continue
+			}
+			sa := t.structAnnOf(a.Type())
+			if sa == nil || len(sa.minvs) == 0 {
+				continue
+			}
+			obj := sval{term: t.val(a), typ: a.Type(), sort: "Int"}
+			for k, inv := range sa.minvs {
+				e := &evalCtx{t: t, fn: t.fn, st: t.cur, old: t.entry, binds: map[string]sval{}, this: &obj}
+				if term, ok := t.evalBool(e, inv); ok {
+					t.oblige("monitor", fmt.Sprintf("construct:%s.minv%d", sa.name, k+1), in.Pos(), term, "an object allocated here must satisfy its object invariant when the function returns: "+inv.text)
+				}
+			}
+		}
+	}
+}
